@@ -17,6 +17,8 @@ CLAIMED = {
     'C20': ('model_checking', '§6 C20', 'A scripted operation (connect, try_connect, disconnect, isolate on any nodes, queries, nested bfs, clone+drop) fires once at a chosen step inside a loop over iter_out / iter_in / iter / `for e in &node` or inside the for_each / filter closure of bfs, dfs, pfs, cycle search and pre/postorder, on all four flavours: no path may panic, self-deadlock on a lock or exceed the step budget, every yielded edge must be an entry of its source\'s current list at that moment (z3), and the C01/C02 invariants must hold afterwards.'),
     'C11': ('model_checking', '§6 C11', 'scc() of digraph and sync_digraph containers over every graph of the bound with the hash map\'s iteration order as a free choice at every next(): the result must be a partition equal to the mutual-reachability classes computed on the out-lists read back through iter_out.'),
     'C18': ('model_checking', '§6 C18', 'Four containers: every history of <=3 (thorough 4) mutating calls (insert of 4 harness nodes incl. a second allocation with an existing key, remove, edge operations on members and non-members) followed by every observer (get, contains, len, is_empty, to_vec, iter, roots, leaves, orphans; index probes) is compared with a dict model; handles must be the inserted allocation; DOT exports are executed through the fmt model and compared line-structurally with the members and their iterated edges and the attributes supplied.'),
+    'C12': ('model_checking', '§6 C12', 'Round trip decided at the serde data-model boundary: gdsl\'s real serialize / graph_serde_decompose / visit_seq MIR is executed against a stub Serializer that records the 2-tuple of sequences and a stub SeqAccess that hands it back; node and edge values symbolic, the hash map\'s iteration order a free choice; the rebuilt graph must have the same members, values and per-node out-lists (directed, in order) / incident multisets (undirected). JSON and CBOR are exercised natively on validation scenarios and replays (and must agree), not encoded.'),
+    'C13': ('model_checking', '§6 C13', 'Every document visit_seq can be handed within the bound (node list with repeated keys, edge list with undeclared endpoints, either list absent or replaced by an element the format reports as an error) is executed through the real visit_seq MIR: no panic, Err whenever an edge names an undeclared key, Ok graphs satisfy the C01/C02 invariants and contain only nodes and edges of the document. Byte-level parsing is outside.'),
 }
 NOTE = 'Trusted base: engine A std models (validated differentially against the native build on every run), rustc MIR dump = compiled code, z3. Bounds in evidence.coverage.bounds.'
 TECH = 'bounded symbolic execution of rustc MIR (own executor) + z3; native replay of counterexamples'
